@@ -199,7 +199,9 @@ inline PlanText gen_readers(const CfgEntry &ce, const GenCtx &g, Stats &st, size
     // tens of thousands of segments (one-level indexes above 2^16 segments), few operations per reader
     bool scale = allow_scale && g.profile.empty() && needs_keys && ((g.run_index >> 4) % 256) == 2;
     if (scale) {
-        p.set("recipe", "walk " + std::to_string(cfg.range(230000, 320000)) + " " + std::to_string(work.next() >> 1) + " " + std::to_string(cfg.range(10, 30)) + " 0 0");
+        // Epsilon 1: enough keys for well over 2^16 segments in a one-level index
+        uint64_t nn = eps == 1 ? cfg.range(430000, 540000) : cfg.range(230000, 320000);
+        p.set("recipe", "walk " + std::to_string(nn) + " " + std::to_string(work.next() >> 1) + " " + std::to_string(cfg.range(10, 30)) + " 0 0");
         p.set("recipe_start", cfg.range(0, 100000));
         p.set("scale", 1);
         p.set("script_len", cfg.range(20, 60));
